@@ -21,6 +21,11 @@ def param_block(x, scale=1.0, flag=True):
 
 
 @onnx_function
+def implicit_block(x, alpha=1.0, beta=2.0, gamma=3.0):
+    return x * alpha + beta - gamma
+
+
+@onnx_function
 class Inner(nnx.Module):
     def __init__(self, rngs):
         self.lin = nnx.Linear(3, 3, rngs=rngs)
